@@ -126,6 +126,24 @@ Proof.
 Qed.
 Print Assumptions C07_crash_pipes_save_inplace_refuted.
 
+(* ================= partition removal, pipe progress ================= *)
+(* a partition that was truncated away completely is not there after a graceful stop and a start; the others are *)
+Theorem C07_drop_survives_restart : forall m d p, consistent m d -> keys_nodup d ->
+  let md := do_step code_fix (m, d) (SDrop p) in
+  exists m' d', start code_fix (graceful code_fix (fst md) (snd md)) = Some (m', d') /\
+                ~ In p (m_parts m') /\ (forall q, q <> p -> (In q (m_parts m') <-> In q (m_parts m))).
+Proof. exact drop_then_restart. Qed.
+Print Assumptions C07_drop_survives_restart.
+
+(* a pipe whose destination holds a prefix of the source's flushed events forwards the rest, once: afterwards the
+   destination was told exactly the source's flushed events (and C07_clean keeps them across a restart, so that the next
+   catch-up - which resumes after the destination's last event - forwards nothing twice) *)
+Theorem C07_pipe_catches_up_once : forall fx m d s t, mem_nat s (m_parts m) = true ->
+  acked m d t = firstn (length (acked m d t)) (events_of s (d_jrnl d)) ->
+  let md := do_step fx (m, d) (SDrain s t) in acked (fst md) (snd md) t = events_of s (d_jrnl d).
+Proof. exact drain_catches_up. Qed.
+Print Assumptions C07_pipe_catches_up_once.
+
 (* ================= the time-index snapshot ================= *)
 (* the property: after a start on any crash-shaped directory no flushed event is hidden from a time-range query.
    False of the code: cindex.dat is written at clean shutdown only and survives a crash; the chunk's stale hull
@@ -170,6 +188,15 @@ Example C07_witnesses_reachable :
   (* a shutdown that dies inside the pipes save (acknowledged 40 still buffered: a crash may lose it) *)
   run_sessions code_fix 1 15 25 empty_disk [mkSession [SWrite 0 [10; 20; 30]; SSync; SWrite 0 [40]; SPipe 0] false [GPTorn 1]]
     = [OStarted [None] [] [[]]; OStarted [Some [10; 20; 30]] [0%nat] [[20]]] /\
+  (* partition 1 dropped, graceful stop: it stays away; written again later it is a new partition *)
+  run_sessions code_fix 2 15 25 empty_disk [mkSession [SWrite 0 [10; 20]; SWrite 1 [11; 21]; SSync; SWrite 1 [31]; SDrop 1] true [];
+                                            mkSession [SWrite 1 [41]; SSync] true []]
+    = [OStarted [None; None] [] [[]; []]; OStarted [Some [10; 20]; None] [] [[20]; []]; OStarted [Some [10; 20]; Some [41]] [] [[20]; []]] /\
+  (* a pipe from partition 0 to partition 1 across a graceful restart: nothing is forwarded twice *)
+  run_sessions code_fix 2 15 25 empty_disk [mkSession [SPipe 4; SSync; SWrite 0 [10; 20]; SDrain 0 1; SSync; SWrite 0 [30]; SDrain 0 1] true [];
+                                            mkSession [SSync; SWrite 0 [40]; SDrain 0 1] true []]
+    = [OStarted [None; None] [] [[]; []]; OStarted [Some [10; 20; 30]; Some [10; 20]] [4%nat] [[20]; [20]];
+       OStarted [Some [10; 20; 30; 40]; Some [10; 20; 30]] [4%nat] [[20]; [20]]] /\
   (* 10,20 | clean stop | 30,40 flushed | SIGKILL: hidden from RANGE [25:45] (the recorded finding) *)
   run_sessions code_fix 1 25 45 empty_disk [mkSession [SWrite 0 [10; 20]; SSync] true []; mkSession [SWrite 0 [30; 40]; SSync] false []]
     = [OStarted [None] [] [[]]; OStarted [Some [10; 20]] [] [[]]; OStarted [Some [10; 20; 30; 40]] [] [[]]].
